@@ -6,7 +6,7 @@ dirs=${@:-/verif/seeded/*/}
 : > $out
 for d in $dirs; do
   n=$(basename $d)
-  case $n in RF*) ids="C05 C06 C07 C08 C09 C10 C11 C12 C13";; R01*) ids="C06 C07";; R02*) ids="C05";; R03*|R04*|R07*) ids="C08";; R05*|R06*|T1*) ids="C13";; *) ids=${n%%-*};; esac
+  case $n in RF*|BC*) ids="C05 C06 C07 C08 C09 C10 C11 C12 C13";; X*) ids=$(grep -o '"breaks_property": "C[0-9]*"' $d/meta.json | grep -o 'C[0-9]*');; R01*) ids="C06 C07";; R02*) ids="C05";; R03*|R04*|R07*) ids="C08";; R05*|R06*|T1*) ids="C13";; *) ids=${n%%-*};; esac
   r=$(/verif/tools/mutant.sh $d/patch.diff $ids 2>&1 | grep -E "^== |clause=" | tr '\n' ' ' | cut -c1-400)
   echo "$n: $r" >> $out
 done
